@@ -1,1 +1,141 @@
-import EoNVerif.Model.Simple
+import EoNVerif.Proofs.Simple2
+/-!
+C03 — property theorems for the model of `Gillespie_simple_contagion` (all proved): the interpreter realises exactly
+the user-specified transitions.  `Simple.WF`, `Simple.Inv`, `Simple.Enabled` are defined (unchanged) in
+`EoNVerif/Proofs/Simple.lean`; helper lemmas are in `EoNVerif/Proofs/Simple.lean` and `EoNVerif/Proofs/Simple2.lean`.
+-/
+namespace Simple
+variable {σ : Type} [DecidableEq σ]
+
+theorem init_inv (P : SCParams σ) (h : WF P) (ic : Node → σ) (tmin : Rat) :
+    ∃ s, init P ic tmin = some s ∧ Inv P s ∧ s.status = ic :=
+  init_inv' P h ic tmin
+
+/-- an enabled event is an enabled transition *of the specification*: the modified node currently has the
+transition's from-status (and for induced ones the source is a neighbour, along edge direction, with the inducing
+status); applying it raises no KeyError, changes exactly that node to the to-status, and restores the invariant -/
+theorem applyEvent_inv (P : SCParams σ) (h : WF P) (s : SCState σ) (hs : Inv P s) (e : SCEvent) (t : Rat)
+    (he : Enabled s e) :
+    ∃ src m old new s', decode P e = some (src, m, old, new) ∧ s.status m = old ∧
+      (∀ u, src = some u → m ∈ P.succ u ∧ ∃ tr, P.ind[e.idx - P.spont.length]? = some tr ∧ s.status u = tr.a) ∧
+      applyEvent P s e t = some s' ∧ Inv P s' ∧ s'.status = fset s.status m new :=
+  applyEvent_inv' P h s hs e t he
+
+/-- the selection step only returns enabled events, for every tape -/
+theorem pick_enabled (P : SCParams σ) (s : SCState σ) (cfuel : Nat) (ts ts' : TapeSt) (e : SCEvent)
+    (hp : pick P s cfuel ts = .ok (e, ts')) : Enabled s e :=
+  pick_enabled' P s cfuel ts ts' e hp
+
+/-- for every tape prefix the invariant holds (nothing but spec transitions ever fires, no KeyError) -/
+theorem loop_inv (P : SCParams σ) (h : WF P) (tmax : ERat) (cfuel fuel : Nat) (s s' : SCState σ) (t : ERat)
+    (ts ts' : TapeSt) (hs : Inv P s) (hl : loop P tmax cfuel fuel s t ts = .ok (s', ts')) : Inv P s' :=
+  loop_inv' P h tmax cfuel fuel s s' t ts ts' hs hl
+
+theorem run_inv (P : SCParams σ) (h : WF P) (ic : Node → σ) (tmin : Rat) (tmax : ERat) (fuel cfuel : Nat)
+    (ts ts' : TapeSt) (s' : SCState σ) (hr : run P ic tmin tmax fuel cfuel ts = .ok (s', ts')) : Inv P s' :=
+  run_inv' P h ic tmin tmax fuel cfuel ts ts' s' hr
+
+/-- (extra) the run never ends in the model's `KeyError`, for every tape -/
+theorem run_no_keyerror (P : SCParams σ) (h : WF P) (ic : Node → σ) (tmin : Rat) (tmax : ERat) (fuel cfuel : Nat)
+    (ts : TapeSt) : run P ic tmin tmax fuel cfuel ts ≠ .error "KeyError" :=
+  run_no_keyerror' P h ic tmin tmax fuel cfuel ts
+
+/-- **clock**: the rate handed to `expovariate` is the total rate of the specified chain -/
+theorem clock_eq (P : SCParams σ) (h : WF P) (s : SCState σ) (hs : Inv P s) :
+    totalRate P s = specTotal P s.status :=
+  clock_eq' P h s hs
+
+/-- **transition selection**: `pickIdx` returns the index whose cumulative-share interval contains the draw, so
+(uniform draw) transition `i` is selected with probability `share_i = rate_i·weight_i/total` -/
+theorem pickIdx_interval (shares : List Rat) (hn : ∀ x ∈ shares, 0 ≤ x) (r : Rat) (h0 : 0 ≤ r)
+    (hr : r < sumRat shares) :
+    let i := pickIdx shares r
+    i < shares.length ∧ sumRat (shares.take i) ≤ r ∧ r < sumRat (shares.take (i + 1)) :=
+  pickIdx_interval' shares hn r h0 hr
+
+set_option linter.unusedVariables false in -- `h` is not needed for this law
+/-- **actor selection** within the chosen transition: proportional to the tabulated weight (C16's law) -/
+theorem actor_law (P : SCParams σ) (h : WF P) (s : SCState σ) (hs : Inv P s) (i : Nat) (ld : LD Actor)
+    (hl : (s.ptS ++ s.ptI)[i]? = some ld) (a : Actor) (ha : a ∈ ld.items) (k : Nat) (hk : 0 < k)
+    (hpos : ld.weighted = true → 0 < ld.weightSum) :
+    Dist.mass (ld.chooseDist k) (fun o => o == some a) =
+      if ld.weighted then ld.getW a / ld.weightSum * (1 - ld.rejProb ^ k) else 1 / (ld.items.length : Rat) :=
+  actor_law' ld (inv_of_getElem P s hs i ld hl) a ha k hk hpos
+
+end Simple
+
+/-! non-vacuity: SIR (recovery rate 1, transmission rate 2) on the path 0 — 1 — 2, node 0 initially infected -/
+
+def nbrs3 (u : Node) : List Node := if u = 0 then [1] else if u = 1 then [0, 2] else if u = 2 then [1] else []
+
+def P3 : SCParams String :=
+  { nodes := [0, 1, 2], succ := nbrs3, pred := nbrs3, directed := false,
+    spont := [{ src := "I", dst := "R", rate := 1, w := none }],
+    ind := [{ a := "I", b := "S", c := "I", rate := 2, w := none }],
+    ret := ["S", "I", "R"] }
+
+def ic3 (u : Node) : String := if u = 0 then "I" else "S"
+
+theorem nbrs3_symm (u v : Node) (h : v ∈ nbrs3 u) : u ∈ nbrs3 v := by
+  unfold nbrs3 at h ⊢
+  split_ifs at h <;> simp at h <;> rcases h with rfl | rfl <;> simp_all
+
+/-- the hypotheses `WF` are satisfiable -/
+theorem P3_wf : Simple.WF P3 where
+  nodup := by decide
+  succ_nodup := by
+    intro u hu
+    have : u = 0 ∨ u = 1 ∨ u = 2 := by simpa [P3] using hu
+    rcases this with rfl | rfl | rfl <;> decide
+  succ_mem := by
+    intro u hu v hv
+    have : u = 0 ∨ u = 1 ∨ u = 2 := by simpa [P3] using hu
+    rcases this with rfl | rfl | rfl <;> simp [P3, nbrs3] at hv ⊢ <;> grind
+  succ_out := by
+    intro u hu
+    have : ¬ (u = 0 ∨ u = 1 ∨ u = 2) := by simpa [P3] using hu
+    simp only [not_or] at this
+    simp [P3, nbrs3, this]
+  pred_nodup := by
+    intro u hu
+    have : u = 0 ∨ u = 1 ∨ u = 2 := by simpa [P3] using hu
+    rcases this with rfl | rfl | rfl <;> decide
+  pred_iff := fun u v => ⟨nbrs3_symm v u, nbrs3_symm u v⟩
+  undirected_symm := fun _ u v hv => nbrs3_symm u v hv
+  noloop := by
+    intro u hu
+    have hu' : u ∈ nbrs3 u := hu
+    unfold nbrs3 at hu'
+    split_ifs at hu' <;> simp at hu' <;> grind
+  wS_nonneg := by
+    intro tr htr f hf
+    have : tr = { src := "I", dst := "R", rate := 1, w := none } := by simpa [P3] using htr
+    rw [this] at hf; cases hf
+  wI_nonneg := by
+    intro tr htr f hf
+    have : tr = { a := "I", b := "S", c := "I", rate := 2, w := none } := by simpa [P3] using htr
+    rw [this] at hf; cases hf
+  rate_nonneg := by
+    constructor
+    · intro tr htr
+      have : tr = { src := "I", dst := "R", rate := 1, w := none } := by simpa [P3] using htr
+      rw [this]; decide
+    · intro tr htr
+      have : tr = { a := "I", b := "S", c := "I", rate := 2, w := none } := by simpa [P3] using htr
+      rw [this]; decide
+
+/-- `init` succeeds; initially the recovery candidate is `[0]`, the transmission candidate the pair `[0, 1]`, total
+rate 1·1 + 2·1 = 3; after the transmission `0 → 1` the candidates are `[0], [1]` and the pair `[1, 2]`, rate 4 -/
+def view3 (s : SCState String) : List (List Actor) × List (List Actor) :=
+  (s.ptS.map (·.items), s.ptI.map (·.items))
+
+example : (Simple.init P3 ic3 0).map view3 = some ([[[0]]], [[[0, 1]]]) := by decide +kernel
+example : (Simple.init P3 ic3 0).map (Simple.totalRate P3) = some 3 := by decide +kernel
+example : (Simple.init P3 ic3 0).map (·.data) = some [[2], [1], [0]] := by decide +kernel
+
+def step3 : Option (SCState String) :=
+  (Simple.init P3 ic3 0).bind fun s => Simple.applyEvent P3 s { idx := 1, actor := [0, 1] } 1
+
+example : step3.map view3 = some ([[[0], [1]]], [[[1, 2]]]) := by decide +kernel
+example : step3.map (Simple.totalRate P3) = some 4 := by decide +kernel
+example : step3.map (·.data) = some [[1, 2], [2, 1], [0, 0]] := by decide +kernel
